@@ -218,6 +218,42 @@ def measure_cases(ctx, quick):
                 if not same(res[i], np.vdot(v, jw.at(O, i) @ v)):
                     ctx.violation('measure_1site(%s) at site %d differs from <psi|O_i|psi> (%s %s N=%d)' % (nm, i, fam, sym, N), dict(desc0, kind='measure_1site', op=nm, site=i))
                     break
+            # an explicit list of sites in any order, with repetitions and out-of-range entries (ignored)
+            lst = [rng.randrange(-1, N + 1) for _ in range(rng.randint(1, N + 1))]
+            if rng.random() < 0.5:
+                lst = sorted(set(lst), reverse=True)           # descending neighbours
+            res = mps.measure_1site(psi, O, psi, sites=lst)
+            ctx.count('measure_1site(sites=list)')
+            want = sorted({i for i in lst if 0 <= i < N})
+            if sorted(res) != want or any(not same(res[i], np.vdot(v, jw.at(O, i) @ v)) for i in want):
+                ctx.violation('measure_1site(%s, sites=%r) gives %r, the dense state has %r (%s %s N=%d)' % (
+                    nm, lst, {i: complex(res[i]) for i in sorted(res)}, {i: complex(np.vdot(v, jw.at(O, i) @ v)) for i in want}, fam, sym, N), dict(desc0, kind='measure_1site-list', op=nm, sites=lst))
+        # 2-site: explicit lists of pairs in any order
+        for _ in range(2):
+            a_, b_ = rng.choice(names), rng.choice(names)
+            O, P = pool[a_], pool[b_]
+            if any(x != 0 for x in ops.config.sym.add_charges(O.n, P.n)):
+                continue
+            allp = [(i, j) for i in range(N) for j in range(N)]
+            lst = rng.sample(allp, rng.randint(1, min(5, len(allp))))
+            if rng.random() < 0.5:     # pairs sharing a site, far partner first
+                i0 = rng.randrange(N)
+                others = [j for j in range(N) if j != i0]
+                rng.shuffle(others)
+                lst = [((i0, j) if rng.random() < 0.5 else (j, i0)) for j in sorted(others[:3], reverse=True)] + lst[:1]
+            try:
+                res = mps.measure_2site(psi, O, P, psi, bonds=lst)
+            except yastn.YastnError as e:
+                ctx.violation('measure_2site(bonds=%r) raised YastnError: %s (%s, %s; %s %s N=%d)' % (lst, str(e)[:100], a_, b_, fam, sym, N), dict(desc0, kind='measure_2site-list', ops=(a_, b_), bonds=lst))
+                continue
+            ctx.count('measure_2site(bonds=list)')
+            res = {tuple(k): val for k, val in res.items()} if isinstance(res, dict) else {tuple(lst[0]): res}
+            for (i, j) in set(lst):
+                ref = np.vdot(v, jw.at(O, i) @ jw.at(P, j) @ v)
+                if (i, j) not in res or not same(res[i, j], ref):
+                    ctx.violation('measure_2site(%s, %s, bonds=%r) at (%d, %d) = %r differs from <psi|O_i P_j|psi> = %r (%s %s N=%d)' % (a_, b_, lst, i, j, res.get((i, j)), ref, fam, sym, N),
+                                  dict(desc0, kind='measure_2site-list', ops=(a_, b_), pair=(i, j), bonds=lst))
+                    break
         # 2-site: all bond patterns
         for _ in range(4):
             a_, b_ = rng.choice(names), rng.choice(names)
